@@ -17,6 +17,30 @@ def _check_tree():
         raise HarnessProblem("mpilot imported from %s, expected %s" % (got, repo))
 
 
+_entered = set()
+
+
+def _start_anchor_monitor():
+    """E4: which repository functions did this workload enter (sys.monitoring PY_START, DISABLE after the first hit)."""
+    try:
+        mon = sys.monitoring
+        tool = mon.PROFILER_ID
+        mon.use_tool_id(tool, "mpv-anchors")
+
+        def on_start(code, offset):
+            fn = code.co_filename
+            i = fn.find("/mpilot/")
+            if i >= 0 and "/site-packages/" not in fn:
+                _entered.add(fn[i + 1:] + ":" + code.co_qualname)
+            return mon.DISABLE
+
+        mon.register_callback(tool, mon.events.PY_START, on_start)
+        mon.set_events(tool, mon.events.PY_START)
+        return True
+    except Exception:
+        return False
+
+
 def _run_one(mod, ctx, case):
     ctx.case = case
     try:
@@ -60,6 +84,7 @@ def main():
     verif = os.environ["MPV_VERIF"]
     ctx = Ctx(prop, tier, seed, shard, nshards)
     witness_results = []
+    anchors_on = _start_anchor_monitor()
     try:
         _check_tree()
         mod = importlib.import_module("mpv.props." + prop.lower())
@@ -91,6 +116,7 @@ def main():
         ctx.cleanup()
     res = ctx.result()
     res["witnesses"] = witness_results
+    res["entered"] = sorted(_entered) if anchors_on else None
     with open(out + ".tmp", "w") as f:
         json.dump(res, f, default=repr)
     os.replace(out + ".tmp", out)
